@@ -2,6 +2,7 @@ import DS.Driver.RollD
 import DS.Driver.VMapD
 import DS.Driver.ErrFmtD
 import DS.Driver.StrLitD
+import DS.Driver.JsonD
 open DS.Driver
 
 def dispatch (line : String) : String :=
@@ -13,6 +14,7 @@ def dispatch (line : String) : String :=
     else if t == "vmap" then vmapLine toks
     else if t == "errfmt" then errfmtLine toks
     else if t == "strscan" || t == "strescape" then strlitLine toks
+    else if t == "jsondecm" || t == "jsonmapm" then jsonLine toks
     else "bad-op"
 
 partial def loop (hin : IO.FS.Stream) (hout : IO.FS.Stream) : IO Unit := do
